@@ -121,7 +121,7 @@ class Check:
         for i in ob.incs: cmd += ['-I', i]
         cmd += ['-D' + d for d in ob.defines + ob.replay_defines]
         cmd += files + [os.path.join(VERIF, 'harness', 'replay_main.c')] + list(ob.replay_link) + ['-o', exe, '-lm']
-        if ob.replay_link: cmd += ['-Wl,-rpath,' + os.path.dirname(ob.replay_link[0]), '-lstdc++']
+        if ob.replay_link: cmd += ['-Wl,-rpath,' + os.path.dirname(ob.replay_link[0]), '-Wl,--allow-shlib-undefined', '-lstdc++']
         rc, out, err, dt = run(cmd, timeout=600)
         script = base + '.sh'
         write(script, '#!/bin/sh\n# replay of %s %s; inputs in %s\n# (paths under _work exist only while the check runs; re-run: ./check %s --replay %s)\n%s\n%s %s\n'
@@ -167,7 +167,7 @@ class Check:
         return r
 
     def run_all(s, jobs=None):
-        jobs = jobs or NCPU
+        jobs = jobs or getattr(s, 'jobs', None) or NCPU
         order = sorted(s.obs, key=lambda o: -o.weight)
         def one(ob):
             t0 = time.time()
